@@ -10,6 +10,7 @@ mod fam_hist;
 mod fam_conf;
 mod fam_store;
 mod fam_cursor;
+mod fam_meta;
 mod gen;
 mod model;
 
@@ -35,6 +36,7 @@ fn main() {
         "conf" => fam_conf::run(&mut rng, &tier, out),
         "store" => fam_store::run(&mut rng, &tier, out),
         "cursor" => fam_cursor::run(&mut rng, &tier, out),
+        "meta" => fam_meta::run(&mut rng, &tier, out),
         _ => {
             eprintln!("unknown family {}", fam);
             std::process::exit(2);
